@@ -22,7 +22,9 @@ def run(ctx):
     n = 400 if ctx.quick else 6000
     ctx.cov["rule"] = ("a pool of parse / print / lex / analyse requests (valid, invalid, mixed dialects and entry points, duplicates) answered (1) by the history-free model (correspondence), "
                        "(2) by fresh interpreter processes in three different random orders under PYTHONHASHSEED 0 / 1 / 4242, (3) concurrently from 8 threads in one process, "
-                       "(4) twice in a row in one process; oracle: every request gets the same answer in every run. distinct_nontrivial = distinct accepted answers")
+                       "(4) twice in a row in one process; oracle: every request gets the same answer in every run; (5) lineage requests (WITH tables and derived tables of the same "
+                       "name with different bodies, and statements without them) from 4–8 threads on ONE shared analyzer and provider that yields at every lookup: every call must give the "
+                       "statement's own lineage (computed alone on a fresh analyzer before and after). distinct_nontrivial = distinct accepted answers")
     ctx.assumptions += ["real thread interleavings under the GIL and process-level effects are observed, not modelled", "the frame fact is syntactic (write-set report); dynamic validation is by these runs"]
     r = ctx.rng.fork("c12")
     reqs = []
@@ -73,9 +75,16 @@ def run(ctx):
                 ctx.count("run:%s:same" % name)
     for q in reqs[:3]:
         ctx.sample({"request": q[:80]})
+    # (5) lineage requests from several threads on ONE shared analyzer and provider (machinery of props/c17.py)
+    from props import c17
+    if not E.run_impl(["LINTHR 1 1 MYSQL %s" % E.enhex("SELECT a FROM t")], jobs=1)[0].startswith("BADREQ"):
+        c17.lineage_threads(ctx, r.fork("lineage-threads"), runs=3 if ctx.quick else 16)
     pfam.conclude(ctx)
 
 
 def replay(payload):
+    if payload.get("kind") == "lineage-threads":
+        from props import c17
+        return c17.replay_threads(payload)
     print(E.run_impl([payload["request"]]))
     return 1
